@@ -139,14 +139,24 @@ def base_case(i, rng, nmodels=None, nreq=None, klass="random"):
             "steps": rng.choice([40, 70, 110]), "pint": rng.choice([0.6, 0.75, 0.85]), "pfail": rng.choice([0.0, 0.1, 0.25])}
 
 
+def to_sr(c):
+    """route the requests through the real Server.scheduleRunner (model store, capability check, option merge)"""
+    c["via"] = "sr"
+    for m in c["models"]:
+        m["bad"] = False
+    for q in c["reqs"]:
+        q["adapter"] = 0
+    return c
+
+
 def gen_cases(ctx, n):
     rng = ctx.rng
     cases = []
     for i in range(n):
         r = rng.random()
-        if r < 0.55:
+        if r < 0.40:
             c = base_case(i, rng)
-        elif r < 0.75:
+        elif r < 0.55:
             # expiry races: one or two models, short keep-alives, few requests, many internal steps
             c = base_case(i, rng, nmodels=rng.choice([1, 2]), nreq=rng.randint(2, 4), klass="expiry-race")
             for q in c["reqs"]:
@@ -155,7 +165,7 @@ def gen_cases(ctx, n):
             c["max"] = rng.choice([0, 1, 3])
             for m in c["models"]:
                 m["bad"], m["vram"] = False, 10 ** 9
-        elif r < 0.9:
+        elif r < 0.70:
             # reuse: every request is compatible with the runner of its model, nothing fails, nothing expires
             c = base_case(i, rng, klass="reuse")
             for q in c["reqs"]:
@@ -163,13 +173,46 @@ def gen_cases(ctx, n):
             for m in c["models"]:
                 m["bad"], m["vram"] = False, 10 ** 9
             c["max"], c["pfail"] = 0, 0.0
-        else:
+            if rng.random() < 0.5:
+                c["par"] = rng.choice([2, 2, 0])
+                c["gpus"] = two_gpus()
+        elif r < 0.78:
             # queue pressure: tiny queue, many submits
             c = base_case(i, rng, nreq=6, klass="queue")
             c["maxq"] = rng.choice([1, 2])
             c["pint"] = 0.5
+        elif r < 0.90:
+            # two GPUs, parallelism > 1: loads in flight on one GPU, placement on the other, re-queued requests
+            c = base_case(i, rng, nmodels=rng.choice([2, 3]), nreq=rng.randint(3, 6), klass="twogpu")
+            c["gpus"] = two_gpus()
+            c["par"] = rng.choice([1, 2, 2, 0])
+            c["max"] = rng.choice([0, 0, 2, 3])
+            for q in c["reqs"]:
+                q["ngpu"], q["adapter"], q["ctx"] = -1, 0, 2048
+                q["ka"] = rng.choice([None, -1, 1000, 50])
+            for m in c["models"]:
+                m["bad"] = False
+                m["vram"] = G if rng.random() < 0.5 else 10 ** 9
+            c["pint"], c["pfail"] = rng.choice([0.5, 0.7]), rng.choice([0.0, 0.1])
+        else:
+            # fit: the first model leaves room for the blocks of the next one but not for its output layer
+            c = base_case(i, rng, nmodels=2, nreq=rng.randint(2, 4), klass="fit")
+            c["models"][0].update({"edge": True, "bad": False})
+            c["models"][1].update({"vram": 10 ** 9, "bad": False})
+            c["reqs"][0]["m"], c["reqs"][1]["m"] = 0, 1
+            for q in c["reqs"]:
+                q["ngpu"], q["adapter"], q["ctx"], q["ka"] = -1, 0, 2048, rng.choice([-1, 1000])
+            c["max"], c["pfail"] = rng.choice([0, 2, 3]), 0.0
+        if c["klass"] != "queue" and rng.random() < 0.5:
+            to_sr(c)
+        else:
+            c["via"] = "direct"
         cases.append(c)
     return cases
+
+
+def two_gpus():
+    return [{"id": "0", "lib": "metal", "total": G, "free": G // 2}, {"id": "1", "lib": "metal", "total": G, "free": G // 2}]
 
 
 # ------------------------------------------------------------------ reading an observation
@@ -213,6 +256,9 @@ def monitor(case, o):
     nmax = case["max"]
     for i, e in flat_events(o):
         k = e[0]
+        if k == "newserver" and len(e) > 9 and e[9] > 0 and e[8] == 0:
+            v["C11"].append(({"class": "no-fit-start"}, "step %d: a runner for model %d is started on %s while %d other runner(s) are loaded although "
+                             "the memory estimate does not place all its layers there" % (i, e[1], e[6], e[9])))
         if k == "submit":
             submitted.append(e[1])
         elif k == "cancel":
@@ -223,7 +269,8 @@ def monitor(case, o):
                 ad = 0
                 if e[7]:
                     ad = int(e[7][0][2:])
-                started[rid] = (m, (e[3], e[4], ad))
+                par = max(1, e[5])
+                started[rid] = (m, (e[3] // par, e[4], ad))
                 same = [r for r in live if started[r][0] == m]
                 if same:
                     v["C11"].append(({"class": "two-per-model"}, "step %d: a runner for model %d is started while runner r%d of the same model is still running" % (i, m, same[0])))
